@@ -85,7 +85,7 @@ def gen(rng, tier, shape=None):
         elif r < 0.5:
             new[n] = A.rand_val(rng, 1)
     flags = sorted(c for c in ["fix", "update"] if rng.random() < 0.55)
-    return {"cls": cls, "old_kw": old_kw, "new": new, "flags": flags, "npos": npos}
+    return {"cls": cls, "old_kw": old_kw, "new": new, "flags": flags, "npos": npos, "orders": rng.random() < 0.3}
 
 
 def arg_src(case):
@@ -136,6 +136,20 @@ def run_impl(case):
             obs["kw"] = ["not-a-keyword-call", ast.dump(node)[:80]]
     except Exception as e:  # noqa: BLE001
         obs["arg"], obs["kw"] = None, ["unparsable", type(e).__name__]
+    if case.get("orders") and not (r["import_error"] or r["apply_error"] or r["collect_errors"]):
+        # C09: fix and update approved together, and one at a time in both orders
+        def final(seq):
+            text = src
+            for fl in seq:
+                rr = impl_inline.run_program({"test_case.py": text}, fl, fl)
+                if rr["import_error"] or rr["apply_error"] or rr["collect_errors"]:
+                    return "error: " + str(rr["apply_error"] or rr["collect_errors"] or rr["import_error"])[:200]
+                text = rr["files_after"].get("test_case.py", "")
+            try:
+                return ast.dump(impl_inline.snapshot_args(text)[0][3])
+            except Exception as e:  # noqa: BLE001
+                return "unparsable: " + type(e).__name__
+        obs["orders"] = {"together": final([["fix", "update"]]), "fix,update": final([["fix"], ["update"]]), "update,fix": final([["update"], ["fix"]])}
     if obs["arg"] is not None:
         import contextlib
         import io
@@ -192,6 +206,13 @@ def oracle(case, obs):
             fails.append(("C05", "fix_only_when_failing", f"{arg_src(case)} compared with the equal value {new_src(case)} passes, but fix is reported (cats {obs['cats']})"))
         if not same and obs["R"] == [False] and "fix" not in obs["cats"]:
             fails.append(("C05", "fix_when_failing", f"{arg_src(case)} compared with {new_src(case)} fails, but no fix is reported (cats {obs['cats']})"))
+    od = obs.get("orders")
+    if od:
+        for k in ("fix,update", "update,fix"):
+            if od[k] != od["together"]:
+                fails.append(("C09", "order_independent", f"{arg_src(case)} compared with {new_src(case)}: approving {k} one at a time gives another call than fix,update together "
+                              f"({od[k][:160]} vs {od['together'][:160]})"))
+                break
     # C10: an unmanaged keyword value is never rewritten (it may only disappear together with its keyword)
     if obs.get("arg") is not None:
         argn = obs["arg"].replace(" ", "").replace("\n", "")
